@@ -180,16 +180,20 @@ def _cnt(name, n):
     rec.count("post.%s.elements" % name, int(n))
 
 
-def classify_inverse(ell, x, y, z, h_got, lat_got, default):
+def classify_inverse(ell, x, y, z, h_got, lat_got, lon_got, default):
     """Name the mechanism of a wrong cart2geodetic answer for ONE element: if the returned
-    latitude is within the documented stop criterion (1e-10 rad) of the true one and the height
-    error is what that latitude error implies (h = p / cos(B) - N), it is the stop criterion."""
+    latitude is within the documented stop criterion (1e-10 rad) of the true one, the longitude is
+    right and the height error is what that latitude error implies (h = p / cos(B) - N), it is the
+    stop criterion."""
     try:
         if ell[1] == 0:
             return default
         h_t, lat_t = M.ecef_to_geodetic(ell[0], ell[1], x, y, z)
         dphi = abs(M.LD(lat_got) - lat_t) * M.D2R
         if not (dphi <= M.LD("1.001e-10")):
+            return default
+        lon_t = np.arctan2(M.LD(y), M.LD(x)) * M.R2D
+        if not (M.angle_diff(lon_got, lon_t) <= M.LD("1e-9")):
             return default
         p = np.hypot(M.LD(x), M.LD(y))
         implied = p / np.cos(lat_t * M.D2R) * np.tan(abs(lat_t) * M.D2R) * dphi
@@ -224,7 +228,7 @@ def post_cart2geodetic(x, y, z, ellipsoid, result):
         i = _first(bad)
         key = classify_inverse(ell, _elem(x, shape, i), _elem(y, shape, i), _elem(z, shape, i),
                                _elem(result[0], shape, i), _elem(result[1], shape, i),
-                               "cart2geodetic-inverse")
+                               _elem(result[2], shape, i), "cart2geodetic-inverse")
         return _stash(key, "cart2geodetic", {"x": x, "y": y, "z": z}, ell, bad,
                       {"err_m": err, "h": result[0], "lat": result[1], "lon": result[2]})
     return True
@@ -411,13 +415,18 @@ def cmp_cart(got, want):
     return ~(d <= TOL_M), {"pos_err_m": d}
 
 
-def _cart_part(F, E, X, H2):
-    """cart -> geodetic -> cart, cart -> geocentric -> cart -> geocentric for X (H2 = cart2geodetic(X))."""
+def _cls(E, X, H):
+    """classifier for a failing element of an answer H = (h, lat, lon) to the cartesian point X"""
     def cls(i, shape):
         return classify_inverse(E, _elem(X[0], shape, i), _elem(X[1], shape, i), _elem(X[2], shape, i),
-                                _elem(H2[0], shape, i), _elem(H2[1], shape, i), None)
+                                _elem(H[0], shape, i), _elem(H[1], shape, i), _elem(H[2], shape, i), None)
+    return cls
+
+
+def _cart_part(F, E, X, H2):
+    """cart -> geodetic -> cart, cart -> geocentric -> cart -> geocentric for X (H2 = cart2geodetic(X))."""
     X2 = call(F, "geodetic2cart", *H2, E)
-    F.check("roundtrip-cart-geodetic-cart", *cmp_cart(X2, X), classify=cls)
+    F.check("roundtrip-cart-geodetic-cart", *cmp_cart(X2, X), classify=_cls(E, X, H2))
     G = call(F, "cart2geocentric", *X)
     X3 = call(F, "geocentric2cart", *G)
     F.check("roundtrip-cart-geocentric", *cmp_cart(X3, X))
@@ -433,18 +442,13 @@ def seq_conv(ell, A):
     try:
         X = call(F, "geodetic2cart", h, lat, lon, E)
         H2 = call(F, "cart2geodetic", *X, E)
-
-        def cls(i, shape):
-            return classify_inverse(E, _elem(X[0], shape, i), _elem(X[1], shape, i),
-                                    _elem(X[2], shape, i), _elem(H2[0], shape, i),
-                                    _elem(H2[1], shape, i), None)
-        F.check("roundtrip-geodetic-cart-geodetic", *cmp_sph(H2, (h, lat, lon)), classify=cls)
+        F.check("roundtrip-geodetic-cart-geodetic", *cmp_sph(H2, (h, lat, lon)), classify=_cls(E, X, H2))
         G = _cart_part(F, E, X, H2)
         Gd = call(F, "geodetic2geocentric", h, lat, lon, E)
         F.check("composed-vs-direct", *cmp_sph(Gd, G))
         Hd = call(F, "geocentric2geodetic", *G, E)
         F.check("composed-vs-direct", *cmp_sph(Hd, H2))
-        F.check("roundtrip-geodetic-geocentric", *cmp_sph(Hd, (h, lat, lon)), classify=cls)
+        F.check("roundtrip-geodetic-geocentric", *cmp_sph(Hd, (h, lat, lon)), classify=_cls(E, X, Hd))
         Gdd = call(F, "geodetic2geocentric", *Hd, E)
         F.check("roundtrip-geodetic-geocentric", *cmp_sph(Gdd, G))
     except Abort:
@@ -519,14 +523,19 @@ def seq_los(ell, A):
         except Breach as b:
             F.add(b.key, None, b.detail, case=b.case)
             raise Abort()
-        except ValueError as exc:
-            nd = np.broadcast(r, lat, lon, za, aa).ndim
-            key = "poslos-nd-shape" if nd >= 2 and "truth value" in str(exc) else "geodesy-exception"
-            F.add(key, None, {"exception": repr(exc), "ndim": nd})
-            raise Abort()
         except Exception as exc:
-            F.add("geodesy-exception", None, {"func": "poslos", "exception": repr(exc),
-                                              "trace": traceback.format_exc()[-700:]})
+            # mechanism: the same elements as one flat 1-d batch go through -> it is the shape
+            bc = np.broadcast(r, lat, lon, za, aa)
+            key = "geodesy-exception"
+            if bc.ndim >= 2:
+                try:
+                    flat = [np.broadcast_to(v, bc.shape).ravel() for v in (r, lat, lon, za, aa)]
+                    _S["g"].cartposlos2geocentric(*_S["g"].geocentricposlos2cart(*flat))
+                    key = "poslos-nd-shape"
+                except Exception:
+                    pass
+            F.add(key, None, {"func": "poslos", "exception": repr(exc), "ndim": bc.ndim,
+                              "trace": traceback.format_exc()[-700:]})
             raise Abort()
         shape = np.broadcast(r, lat, lon, za, aa).shape or (1,)
         if tuple(np.shape(S[3])) != tuple(shape):
